@@ -83,6 +83,9 @@ func rawSub(sub map[string]ref.Val, bad string) map[string]interface{} {
 	}
 	if bad != "" {
 		raw[bad] = struct{ X int }{1} // no factory accepts this
+		if rng.HashStr(bad)%2 == 0 {
+			raw[bad] = nil // nor this: a key that is present with no value (round 10)
+		}
 	}
 	return raw
 }
